@@ -159,6 +159,72 @@ func isLogCall(call *ast.CallExpr) bool {
 	return strings.HasPrefix(exprStr(call.Fun), "logger.") || strings.HasPrefix(exprStr(call.Fun), "fmt.Print")
 }
 
+// encodeTok classifies one statement-level call of an Encode<X> method that moves octets to the
+// message buffer: binary.Write (reflection, width = size of the operand), buffer.WriteByte (one
+// octet: the operand must be an 8-bit value), buffer.Write (a slice; a 2-octet big-endian length
+// built with AppendUint16 or staged in a local array by PutUint16). tmp holds staged lengths.
+// skip: the statement only prepares a later write.
+func encodeTok(info *types.Info, call *ast.CallExpr, tmp map[string]nasTok) (tok nasTok, ok, skip bool) {
+	if isBinaryCall(call, "Write") {
+		t, ok := tokOf(call.Args[2])
+		return t, ok, false
+	}
+	is8 := func(e ast.Expr) bool {
+		b, isB := info.TypeOf(e).Underlying().(*types.Basic)
+		return isB && (b.Kind() == types.Uint8 || b.Kind() == types.Int8)
+	}
+	is16 := func(e ast.Expr) bool {
+		b, isB := info.TypeOf(e).Underlying().(*types.Basic)
+		return isB && b.Kind() == types.Uint16
+	}
+	fun := exprStr(call.Fun)
+	switch {
+	case fun == "buffer.WriteByte" && len(call.Args) == 1:
+		e := call.Args[0]
+		if !is8(e) {
+			return nasTok{}, false, false
+		}
+		t, ok := tokOf(e)
+		if ok && t.Part == "Value" && t.Arg != "Octet" {
+			ok = false
+		}
+		return t, ok, false
+	case fun == "buffer.Write" && len(call.Args) == 1:
+		e := call.Args[0]
+		if t, ok := tokOf(e); ok && t.Part == "Value" {
+			if t.Arg == "Octet[:]" {
+				t.Arg = "Octet"
+			}
+			return t, true, false
+		}
+		if c2, isCall := e.(*ast.CallExpr); isCall && exprStr(c2.Fun) == "binary.BigEndian.AppendUint16" && len(c2.Args) == 2 && exprStr(c2.Args[0]) == "nil" && is16(c2.Args[1]) {
+			if t, ok := tokOf(c2.Args[1]); ok && t.Part == "Len" {
+				return t, true, false
+			}
+		}
+		if sl, isSl := e.(*ast.SliceExpr); isSl && sl.Low == nil && sl.High == nil {
+			if id, isId := sl.X.(*ast.Ident); isId {
+				if t, staged := tmp[id.Name]; staged {
+					delete(tmp, id.Name)
+					return t, true, false
+				}
+			}
+		}
+	case fun == "binary.BigEndian.PutUint16" && len(call.Args) == 2 && is16(call.Args[1]):
+		if sl, isSl := call.Args[0].(*ast.SliceExpr); isSl && sl.Low == nil && sl.High == nil {
+			if id, isId := sl.X.(*ast.Ident); isId {
+				if at, isArr := info.TypeOf(id).Underlying().(*types.Array); isArr && at.Len() == 2 {
+					if t, ok := tokOf(call.Args[1]); ok && t.Part == "Len" {
+						tmp[id.Name] = t
+						return nasTok{}, true, true
+					}
+				}
+			}
+		}
+	}
+	return nasTok{}, false, false
+}
+
 func buildNasModel(c *core.Ctx) *nasModel {
 	pk := c.P.Pkg(pNasM)
 	tpk := c.P.Pkg(pNasT)
@@ -265,18 +331,26 @@ func buildNasModel(c *core.Ctx) *nasModel {
 			msg.IEs = append(msg.IEs, ie)
 			byField[f.Name()] = ie
 		}
+		staged := map[string]nasTok{}
 		if d.enc != nil {
 			msg.EncPos = d.enc.Pos()
 			for _, s := range d.enc.Body.List {
 				switch x := s.(type) {
+				case *ast.DeclStmt:
+					// var tmp [2]byte: staging for a 2-octet length
+					continue
 				case *ast.ExprStmt:
 					call, ok := x.X.(*ast.CallExpr)
-					if ok && isBinaryCall(call, "Write") {
-						if t, ok := tokOf(call.Args[2]); ok {
-							msg.EncMand = append(msg.EncMand, t)
-						} else {
-							msg.EncMand = append(msg.EncMand, nasTok{Field: "?", Part: "Other", Arg: clip(exprStr(call.Args[2]))})
+					if ok {
+						if t, okT, skip := encodeTok(pk.TypesInfo, call, staged); okT {
+							if !skip {
+								msg.EncMand = append(msg.EncMand, t)
+							}
+							continue
 						}
+					}
+					if ok && isBinaryCall(call, "Write") {
+						msg.EncMand = append(msg.EncMand, nasTok{Field: "?", Part: "Other", Arg: clip(exprStr(call.Args[2]))})
 						continue
 					}
 					if ok && isIOCall(call) {
@@ -312,15 +386,20 @@ func buildNasModel(c *core.Ctx) *nasModel {
 					}
 					msg.EncOrder = append(msg.EncOrder, fld)
 					for _, s3 := range x.Body.List {
+						if _, isDecl := s3.(*ast.DeclStmt); isDecl {
+							continue
+						}
 						es, ok := s3.(*ast.ExprStmt)
 						if ok {
 							if call, ok := es.X.(*ast.CallExpr); ok {
-								if isBinaryCall(call, "Write") {
-									if t, ok := tokOf(call.Args[2]); ok {
+								if t, okT, skip := encodeTok(pk.TypesInfo, call, staged); okT {
+									if !skip {
 										ie.Enc = append(ie.Enc, t)
-									} else {
-										ie.Enc = append(ie.Enc, nasTok{Field: fld, Part: "Other", Arg: clip(exprStr(call.Args[2]))})
 									}
+									continue
+								}
+								if isBinaryCall(call, "Write") {
+									ie.Enc = append(ie.Enc, nasTok{Field: fld, Part: "Other", Arg: clip(exprStr(call.Args[2]))})
 									continue
 								}
 								if isIOCall(call) {
@@ -633,4 +712,26 @@ func GenStdTable(c *core.Ctx) {
 		fmt.Println("\t},")
 	}
 	fmt.Println("}")
+}
+
+// uninterpreted lists the octet-moving statements of the message's codec the model could not
+// classify (a helper, an unknown buffer method): the message is then undecided, not wrong.
+func (msg *nasMsg) uninterpreted() []string {
+	var out []string
+	add := func(ts []nasTok) {
+		for _, t := range ts {
+			// only statements that handle the message's own fields in an unknown spelling; a constant or a
+			// local written to the wire is an octet the tables do not know and stays a format error
+			if t.Part == "Other" && (strings.Contains(t.Arg, "a.") || strings.Contains(t.Arg, "(a,") || strings.Contains(t.Arg, "(a)")) {
+				out = append(out, t.Arg)
+			}
+		}
+	}
+	add(msg.EncMand)
+	add(msg.DecMand)
+	for _, ie := range msg.IEs {
+		add(ie.Enc)
+		add(ie.Dec)
+	}
+	return out
 }
